@@ -95,7 +95,8 @@ def _registry(draw) -> dict:
 
 def strategy(tier: str):
     send = st.builds(lambda n, c, t, v: ["send", [n, c, 1, 0, t, v], None], st.sampled_from(NODES), st.sampled_from(CHILDREN), st.sampled_from((0, 2, 49)), gen.short_payloads)
-    ops = st.lists(gen.weighted((8, gen.with_ack(_line_strategy()).map(lambda line: ["rx", line])), (1, send)), min_size=5, max_size=25)
+    events = st.sampled_from((["save"], ["save"], ["reload"], ["session"]))  # the registry is saved / reloaded / the context re-entered meanwhile
+    ops = st.lists(gen.weighted((16, gen.with_ack(_line_strategy()).map(lambda line: ["rx", line])), (2, send), (1, events)), min_size=5, max_size=25)
     return st.fixed_dictionaries(
         {
             "version": gen.versions_any,
@@ -103,6 +104,7 @@ def strategy(tier: str):
             "ops": ops,
             "mode": st.sampled_from(("steps", "steps", "queue")),
             "listen_mode": st.sampled_from(("fresh", "persistent")),
+            "ctx": st.sampled_from(("same", "same", "same", "copied", "thread")),
             "debug_log": st.sampled_from((False, False, True)),
         }
     )
